@@ -127,7 +127,7 @@ def _(u):
     _step(u, "open", "L1")
 
 
-@unit("mdcpdp.rowlocal.step", file=F, func="MDCPDPEnv._step", props=("C04", "C03"))
+@unit("mdcpdp.rowlocal.step", file=F, func="MDCPDPEnv._step", props=("C04", "C03", "C14"))
 def _(u):
     D, H = u.dims("D H")
     M = D + 2 * H
@@ -138,4 +138,4 @@ def _(u):
         a = td["action"]
         return AND(state_ok(u, td, B, D, H), u.forall((B,), lambda b: AND(a.at(b) >= 0, a.at(b) < M)))
 
-    rowlocal(u, "step", lambda u, B: state(u, B, D, H), lambda u, td: u.run(F, "MDCPDPEnv._step", td, selfobj=env), requires=req, tags=("C04", "C03"))
+    rowlocal(u, "step", lambda u, B: state(u, B, D, H), lambda u, td: u.run(F, "MDCPDPEnv._step", td, selfobj=env), requires=req, tags=("C04", "C03", "C14"))
